@@ -355,7 +355,14 @@ def hist_c04(seed, cls=None):
 
 def hist_c05(seed, cls=None):
     rng = random.Random(seed)
-    spec = random_object_spec(rng, cls)
+    if cls is None and seed % 12 == 0:
+        # three quantitative features fitted and transformed by two worker processes (a real multiprocessing.Pool):
+        # every fitted feature is transformed, whatever the ratio of features to workers
+        spec = random_object_spec(rng, 'QuantitativeDiscretizer', nfeat=3)
+        spec['cls'] = rng.choice(['QuantitativeDiscretizer', 'Discretizer', 'BinaryCarver'])
+        spec['params']['n_jobs'] = 2
+    else:
+        spec = random_object_spec(rng, cls)
     o, X, y, kw = E.build(spec)
     h = _new('c05', seed, spec)
     if not h.fit(1, o, X, y, kw):
@@ -389,6 +396,12 @@ def hist_c06(seed, cls=None):
             if str(wide[c].dtype) == 'float32':
                 wide[c] = wide[c].astype('float64')
         frames.append(('train_as_float64', wide))
+    # frames lacking one of the columns the object was given at fit -- the column of a kept feature, of a feature that was
+    # dropped, or (MulticlassCarver) of a feature no class kept: the restored object refuses what its source refuses
+    given = [c for c in X.columns if c in spec['features']]
+    rng.shuffle(given)
+    for c in given[:2]:
+        frames.append((f'lacks_{c}', X.drop(columns=[c])))
     for label, fr in frames:
         t1 = h.transform(1, fr.copy(deep=True), seen=label.startswith('train'), label=label)
         h.transform(2, fr.copy(deep=True), seen=label.startswith('train'), same_as=t1, same_clause='C06_behaviour', label=label + '_reloaded')
@@ -429,6 +442,8 @@ def hist_c08(seed, cls=None):
         spec = sparse_columns_spec(rng)
     else:
         spec = random_object_spec(rng, cls, n=rng.choice([2, 3, 5, 8, 10, 20, 40]), degenerate=True)
+    if seed % 5 == 0 and spec['cls'] in ('BinaryCarver', 'ContinuousCarver', 'MulticlassCarver'):
+        spec['params']['dup_names'] = True
     o, X, y, kw = E.build(spec)
     h = _new('c08', seed, spec)
     if h.fit(1, o, X, y, kw):
@@ -436,9 +451,24 @@ def hist_c08(seed, cls=None):
     return h
 
 
+def nested_names(spec):
+    """Rename the features so that the first name is part of every other one ('q0', 'c1q0', 'o2q0'):
+    `summary(f)` / `history(f)` are about the feature called f, not about names that contain f."""
+    names = [f for f, d in spec['features'].items() if not d.get('chained')]
+    if len(names) < 2:
+        return spec
+    ren = {f: (f if i == 0 else f + names[0]) for i, f in enumerate(names)}
+    spec['features'] = {ren.get(f, f): d for f, d in spec['features'].items()}
+    if spec.get('dev'):
+        spec['dev']['features'] = {ren.get(f, f): v for f, v in spec['dev']['features'].items()}
+    return spec
+
+
 def hist_c16(seed, cls=None):
     rng = random.Random(seed)
     spec = random_object_spec(rng, cls, nfeat=rng.randint(2, 3))
+    if seed % 4 == 0:
+        spec = nested_names(spec)
     o, X, y, kw = E.build(spec)
     h = _new('c16', seed, spec)
     if not h.fit(1, o, X, y, kw):
